@@ -342,7 +342,7 @@ def run_case(ctx, case):
             ctx.violation('omega:%s-copy-differs' % kind, '%s: a %s copy evaluates differently from the object it was copied from (max diff %.3g)' % (desc, how, float(np.nanmax(np.abs(oc - out))) if oc.shape == out.shape else np.inf))
     # ---- k-independence: subsets, reversed order, single wavenumbers
     ctx.hook('k_independence_probe')
-    tol = 1e-9 * max(N, 1)
+    tol = 5e-8 * max(N, 1)          # two evaluations of the same closed form differ by rounding amplified by 1/(1-E)^2 (up to ~1e-8 at the small-k switch)
     with np.errstate(all='ignore'):
         sub = np.sort(rng.choice(len(k), size=max(1, len(k) // 4), replace=False))
         o = np.array(type(obj).calculate(obj, np.array(k[sub])), dtype=float)
